@@ -492,7 +492,13 @@ impl State {
                 obs.disallow_future_use(self);
             }
         }
-        self.unlink_disallowed_observers();
+        /* If a panic escaped from [stabilise] (a height limit, a cycle, a user function), the
+        graph may be half-linked: walking it to unlink the observers can index into edges
+        that were never recorded and panic again, which aborts when it happens while the
+        first panic is still unwinding. Nobody can use this state any more; just let go. */
+        if self.status.get() == IncrStatus::NotStabilising {
+            self.unlink_disallowed_observers();
+        }
         self.all_observers.take().clear();
         self.disallowed_observers.take().clear();
         self.weak_maps.take().clear();
